@@ -141,6 +141,16 @@ def copyPairs (onlyNew : Bool) (g : G) (hard : Bool) :
     | (g', log', true) => (g', log', true)
     | (g', log', false) => copyPairs onlyNew g' hard ps log'
 
+/-- `Channel.copy_connections(other)`: `done` is `new_connections`; on a refusal everything
+recorded is disconnected and the exception re-raised -/
+def copyChanAux (onlyNew : Bool) (g : G) (a : Nat) : List Nat → List Nat → G × Res
+  | [], _ => (g, .ok)
+  | c :: cs, done =>
+    let already : Bool := decide (c ∈ g.conns a)
+    match connect1 g a c with
+    | (g', .ok) => copyChanAux onlyNew g' a cs (if onlyNew && already then done else done ++ [c])
+    | (g', r) => (disconnect g' a done, r)
+
 /-! ## values -/
 
 def admitsV (w : W) (c : Nat) : Option Nat → Bool
@@ -318,12 +328,16 @@ def seat (w : W) (new old : Nat) : G :=
         else if x ∈ partners then ((w.g.conns x).filter (fun y => w.g.owner y != new)).map (subst m)
         else w.g.conns x }
 
+/-- right after `copy_io` (repair of D1; nothing in the tree as it is) -/
+def seated (cfg : Cfg) (w : W) (new old : Nat) : W :=
+  if cfg.positional then { w with g := seat w new old } else w
+
 /-! ## `Composite.replace_child` -/
 
 /-- everything from `remove_child` on; `links` have been computed -/
 def commit (cfg : Cfg) (w : W) (p old new : Nat) (links : List (Nat × Nat)) : W × Err :=
   let isStart : Bool := decide (old ∈ w.t.starting p)
-  let w1 := if cfg.positional then { w with g := seat w new old } else w
+  let w1 := w
   -- remove_child: pop, de-parent, disconnect, starting nodes
   let t2 := Tree.removeCore0 w1.t p old
   let g2 := disconnectChans w1.g (w.io old).all
@@ -360,14 +374,15 @@ def compReplace (cfg : Cfg) (w : W) (p old new : Nat) : W × Err :=
           if linksValid w links = false then (w, .valueError)
           else
             match copyIo cfg w new old true false with
-            | (w1, .ok) => commit cfg w1 p old new links
+            | (w1, .ok) => commit cfg (seated cfg w1 new old) p old new links
             | r => r
       else
         match copyIo cfg w new old true false with
         | (w1, .ok) =>
-          match linksOf w1 p old new with
-          | .error e => (w1, e)
-          | .ok links => commit cfg w1 p old new links
+          let w2 := seated cfg w1 new old
+          match linksOf w2 p old new with
+          | .error e => (w2, e)
+          | .ok links => commit cfg w2 p old new links
         | r => r
     | e => (w, e)
 
@@ -442,20 +457,25 @@ def wire (w : W) (up : Nat → List Nat) : G → List Nat → G × Res
       | (g', .ok) => wire w up g' ns
       | r => r
 
-/-- pinned recovery: `for c1, c2 in disconnected_pairs: c1.connect(c2)` -/
-def reconnect : G → List (Nat × Nat) → G
-  | g, [] => g
+/-- pinned recovery: `for c1, c2 in disconnected_pairs: c1.connect(c2)`; a refusal inside the
+handler replaces the exception (`false`) -/
+def reconnect : G → List (Nat × Nat) → G × Bool
+  | g, [] => (g, true)
   | g, (a, b) :: ps =>
     match connect1 g a b with
     | (g', .ok) => reconnect g' ps
-    | (g', _) => g'
+    | (g', _) => (g', false)
 
 /-- repaired recovery: the saved lists of the cut channels and of their partners are put back -/
 def restoreLists (g0 g : G) (touched : List Nat) : G :=
   { g with conns := fun x => if x ∈ touched then g0.conns x else g.conns x }
 
-def dagRecover (cfg : Cfg) (w : W) (cuts : List Nat) (g : G) (pairs : List (Nat × Nat)) : G :=
-  if cfg.dagSnapshot then restoreLists w.g g (cuts ++ cuts.flatMap w.g.conns) else reconnect g pairs
+def dagRecover (cfg : Cfg) (w : W) (cuts : List Nat) (g : G) (pairs : List (Nat × Nat)) (e : Err) : W × Err :=
+  if cfg.dagSnapshot then ({ w with g := restoreLists w.g g (cuts ++ cuts.flatMap w.g.conns) }, e)
+  else
+    match reconnect g pairs with
+    | (g', true) => ({ w with g := g' }, e)
+    | (g', false) => ({ w with g := g' }, .connErr)
 
 /-- `Composite.set_run_signals_to_dag_execution`; `up` and `start` are the observed set orders -/
 def dag (cfg : Cfg) (w : W) (p : Nat) (up : Nat → List Nat) (start : List Nat) : W × Err :=
@@ -466,21 +486,29 @@ def dag (cfg : Cfg) (w : W) (p : Nat) (up : Nat → List Nat) (start : List Nat)
     let c := cutAll w.g cuts
     let deps := fun n => (depsOf w n).eraseDups
     match digraphErr w nodes nodes with
-    | some e => ({ w with g := dagRecover cfg w cuts c.1 c.2 }, e)
+    | some e => dagRecover cfg w cuts c.1 c.2 e
     | none =>
-      if peel deps nodes.length nodes = false then
-        ({ w with g := dagRecover cfg w cuts c.1 c.2 }, .circular)
-      else if nodes.any (fun n => !sameMembers (up n) (deps n)) ||
-          !sameMembers start (nodes.filter fun n => (deps n).isEmpty) then (w, .badObs)
+      if peel deps nodes.length nodes = false then dagRecover cfg w cuts c.1 c.2 .circular
+      else if nodes.any (fun n => !sameMembers (up n) (deps n)) then (w, .badObs)
       else
         match wire w up c.1 nodes with
-        | (g2, .ok) => ({ w with g := g2, t := { w.t with starting := updF w.t.starting p start } }, .ok)
-        | (g2, _) => ({ w with g := dagRecover cfg w cuts g2 c.2 }, .connErr)
+        | (g2, .ok) =>
+          if sameMembers start (nodes.filter fun n => (deps n).isEmpty) then
+            ({ w with g := g2, t := { w.t with starting := updF w.t.starting p start } }, .ok)
+          else (w, .badObs)
+        | (g2, _) => dagRecover cfg w cuts g2 c.2 .connErr
 
 /-! ## operations -/
 
+def copyChan (cfg : Cfg) (w : W) (a b : Nat) : W × Err :=
+  match copyChanAux cfg.onlyNewUndo w.g a (w.g.conns b) [] with
+  | (g', .ok) => ({ w with g := g' }, .ok)
+  | (g', .typeErr) => ({ w with g := g' }, .typeError)
+  | (g', .connErr) => ({ w with g := g' }, .connErr)
+
 inductive Op
   | replace (p old new : Nat)
+  | copyChan (a b : Nat)
   | copyIo (me other : Nat) (connHard valHard : Bool)
   | dag (p : Nat) (up : List (Nat × List Nat)) (start : List Nat)
   deriving Repr
@@ -489,6 +517,7 @@ def upFn (up : List (Nat × List Nat)) (n : Nat) : List Nat := (up.lookup n).get
 
 def step (cfg : Cfg) (w : W) : Op → W × Err
   | .replace p o n => replace cfg w p o n
+  | .copyChan a b => copyChan cfg w a b
   | .copyIo me other ch vh => copyIo cfg w me other ch vh
   | .dag p up start => dag cfg w p (upFn up) start
 
